@@ -13,7 +13,6 @@ search : vlib/c15_oracle.py — random operation sequences over a shared pool of
          objects, adversarial argument pools (equal size / equal bytes / equal count), operand checksums.
 """
 import os
-import re
 import time
 
 from .. import c15_translate as T
@@ -97,15 +96,14 @@ def regenerate(ctx):
     return facts, written
 
 
-def build(ctx):
-    facts, written = regenerate(ctx)
+def compile_all(ctx, written):
     ok = {}
     for level in (0, 1):
         ok.update(compile_parallel(ctx, [f'gen/{n}.v' for n, l in written.items() if l == level]))
     ctx.copy_dyn()
     for lev in DYN_LEVELS:
         ok.update(compile_parallel(ctx, [f'dyn/{n}.v' for n in lev], kind='tie'))
-    return facts, ok
+    return ok
 
 
 def run(ctx):
@@ -130,21 +128,41 @@ def run(ctx):
                        'pools, operand checksums; non-trivial = a history in which some object is used at least twice; distinct by content')
     ctx.ensure_static()
     t = time.time()
-    facts, ok = build(ctx)
+    import threading
+    import traceback
+    facts, written = regenerate(ctx)
     ctx.extra['translated'] = {k: (v if not isinstance(v, dict) or 'rows' not in v else {'lazy_attributes': len(v['rows'])})
                                for k, v in facts.items() if k != 'C15GenScan'}
     if 'C15GenScan' in facts:
         ctx.extra['store_scan'] = {'functions': facts['C15GenScan']['functions'],
                                    'whitelisted': [list(x) for x in facts['C15GenScan']['whitelisted']],
                                    'offending': [list(x) for x in facts['C15GenScan']['offending']]}
-    ctx.prove()
-    ctx.log(f'build+prove {time.time() - t:.1f}s')
-    import traceback
-    # correspondence, then the search (runs always): refutation witnesses for broken ties, random pool histories, operand checksums
-    for stage in (lambda: O.correspond(ctx, facts, ok), lambda: O.search(ctx, facts, ok)):
+    ok = {}
+
+    def coq_side():
+        try:
+            ok.update(compile_all(ctx, written))
+            ctx.prove()
+            ctx.log(f'build+prove {time.time() - t:.1f}s')
+        except Exception as e:      # noqa: BLE001
+            ctx.broke('harness', type(e).__name__, traceback.format_exc())
+    th = threading.Thread(target=coq_side)
+    th.start()
+    # meanwhile, on the real implementation (no Coq needed): the search (runs always) and the histories of the correspondence
+    wit, jobs = {}, []
+    try:
+        wit = O.search(ctx)
+    except Exception as e:      # noqa: BLE001 - a crash of one stage must not hide what the others find
+        ctx.broke('harness', type(e).__name__, traceback.format_exc())
+    try:
+        jobs = O.correspond(ctx, facts)
+    except Exception as e:      # noqa: BLE001
+        ctx.broke('harness', type(e).__name__, traceback.format_exc())
+    th.join()
+    for stage in (lambda: O.run_correspondence(ctx, jobs, ok), lambda: O.refute(ctx, wit, ok)):
         try:
             stage()
-        except Exception as e:      # noqa: BLE001 - a crash of one stage must not hide what the other finds
+        except Exception as e:      # noqa: BLE001
             ctx.broke('harness', type(e).__name__, traceback.format_exc())
 
 
